@@ -246,11 +246,14 @@ func needParen(op BinOp, child X, right bool) bool {
 func Bin(sym string, l, r X) X {
 	op := OpBySym(sym)
 	lt, rt := l.Toks, r.Toks
+	parens := false
 	if needParen(op, l, false) {
 		lt = paren(lt)
+		parens = true
 	}
 	if needParen(op, r, true) {
 		rt = paren(rt)
+		parens = true
 	}
 	o := pt(sym)
 	if op.Word {
@@ -271,6 +274,9 @@ func Bin(sym string, l, r X) X {
 	}
 	if l.Ops > 0 || r.Ops > 0 {
 		feat = append(feat, "expr.nest:"+op.Class+"<"+clsOf(l)+","+clsOf(r))
+	}
+	if parens {
+		feat = append(feat, "expr.parens-required")
 	}
 	return X{
 		Toks: cat(lt, []Tok{o}, rt), Full: cat(lf, []Tok{o}, rf),
@@ -302,15 +308,17 @@ func NotLike(sym string, l, r X) X {
 	x.Toks = cat(lt, []Tok{kw("NOT"), kw(sym)}, rt)
 	x.Full = cat(lf, []Tok{kw("NOT"), kw(sym)}, rf)
 	x.N.(*ast.BinaryExpression).Not = true
-	x.Feat = mergeFeat([]string{"expr.not-like"}, x.Feat)
+	x.Feat = mergeFeat([]string{"expr.not-like", "expr.not-like:" + sym}, x.Feat)
 	return x
 }
 
 // Not builds NOT x.
 func Not(x X) X {
 	t := x.Toks
+	fs := []string{"expr.not", "expr.nest:not<" + clsOf(x)}
 	if x.P < PNot {
 		t = paren(t)
+		fs = append(fs, "expr.parens-required")
 	}
 	f := x.Full
 	if x.Ops > 0 {
@@ -318,14 +326,16 @@ func Not(x X) X {
 	}
 	return X{Toks: cat([]Tok{kw("NOT")}, t), Full: cat([]Tok{kw("NOT")}, f),
 		N: &ast.UnaryExpression{Operator: ast.Not, Expr: x.N}, P: PNot, Ops: x.Ops + 1,
-		Feat: mergeFeat([]string{"expr.not", "expr.nest:not<" + clsOf(x)}, x.Feat), Names: x.Names}
+		Feat: mergeFeat(fs, x.Feat), Names: x.Names}
 }
 
 // Neg builds -x / +x.
 func Neg(sign string, x X) X {
 	t := x.Toks
+	fs := []string{"expr.sign"}
 	if x.P < PUnary || x.P == PUnary {
 		t = paren(t)
+		fs = append(fs, "expr.parens-required")
 	}
 	f := x.Full
 	if x.Ops > 0 {
@@ -337,24 +347,26 @@ func Neg(sign string, x X) X {
 	}
 	return X{Toks: cat([]Tok{pt(sign)}, t), Full: cat([]Tok{pt(sign)}, f),
 		N: &ast.UnaryExpression{Operator: op, Expr: x.N}, P: PUnary, Ops: x.Ops + 1,
-		Feat: mergeFeat([]string{"expr.sign"}, x.Feat), Names: x.Names}
+		Feat: mergeFeat(fs, x.Feat), Names: x.Names}
 }
 
-func operandCmp(x X) ([]Tok, []Tok) {
+func operandCmp(x X) ([]Tok, []Tok, []string) {
 	t := x.Toks
+	var pf []string
 	if x.P <= PCmp {
 		t = paren(t)
+		pf = []string{"expr.parens-required"}
 	}
 	f := x.Full
 	if x.Ops > 0 {
 		f = paren(f)
 	}
-	return t, f
+	return t, f, pf
 }
 
 // IsNull builds x IS [NOT] NULL.
 func IsNull(x X, not bool) X {
-	t, f := operandCmp(x)
+	t, f, pf := operandCmp(x)
 	tail := kws("IS NULL")
 	feat := "expr.is-null"
 	if not {
@@ -363,7 +375,7 @@ func IsNull(x X, not bool) X {
 	}
 	return X{Toks: cat(t, tail), Full: cat(f, tail),
 		N: &ast.BinaryExpression{Left: x.N, Operator: "IS NULL", Right: &ast.LiteralValue{Value: nil, Type: "null"}, Not: not},
-		P: PCmp, Ops: x.Ops + 1, Feat: mergeFeat([]string{feat}, x.Feat), Names: x.Names}
+		P: PCmp, Ops: x.Ops + 1, Feat: mergeFeat([]string{feat}, pf, x.Feat), Names: x.Names}
 }
 
 func commaList(xs []X, full bool) []Tok {
@@ -415,7 +427,7 @@ func sumOps(xs []X) int {
 
 // In builds x [NOT] IN (list).
 func In(x X, not bool, list []X) X {
-	t, f := operandCmp(x)
+	t, f, pf := operandCmp(x)
 	head := kws("IN")
 	feat := "expr.in-list"
 	if not {
@@ -424,12 +436,12 @@ func In(x X, not bool, list []X) X {
 	}
 	return X{Toks: cat(t, head, paren(commaList(list, false))), Full: cat(f, head, paren(commaList(list, true))),
 		N: &ast.InExpression{Expr: x.N, List: exprs(list), Not: not}, P: PCmp, Ops: x.Ops + sumOps(list) + 1,
-		Feat: mergeFeat([]string{feat}, x.Feat, allFeat(list)), Names: mergeNames(x.Names, allNames(list))}
+		Feat: mergeFeat([]string{feat}, pf, x.Feat, allFeat(list)), Names: mergeNames(x.Names, allNames(list))}
 }
 
 // InSub builds x [NOT] IN (subquery).
 func InSub(x X, not bool, q S) X {
-	t, f := operandCmp(x)
+	t, f, pf := operandCmp(x)
 	head := kws("IN")
 	feat := "expr.in-subquery"
 	if not {
@@ -438,16 +450,17 @@ func InSub(x X, not bool, q S) X {
 	}
 	return X{Toks: cat(t, head, paren(q.Toks)), Full: cat(f, head, paren(q.Toks)),
 		N: &ast.InExpression{Expr: x.N, Subquery: q.N, Not: not}, P: PCmp, Ops: x.Ops + 1,
-		Feat: mergeFeat([]string{feat}, x.Feat, q.Feat), Names: mergeNames(x.Names, q.Names)}
+		Feat: mergeFeat([]string{feat, "expr.subquery-body:" + q.Kind}, pf, x.Feat, q.Feat), Names: mergeNames(x.Names, q.Names)}
 }
 
 // Between builds x [NOT] BETWEEN lo AND hi.  Bounds below the additive level are parenthesised.
 func Between(x X, not bool, lo, hi X) X {
-	t, f := operandCmp(x)
+	t, f, pf := operandCmp(x)
 	b := func(y X) ([]Tok, []Tok) {
 		yt := y.Toks
 		if y.P <= PCmp || y.P == PConcat || y.P == PJSON {
 			yt = paren(yt)
+			pf = []string{"expr.parens-required"}
 		}
 		yf := y.Full
 		if y.Ops > 0 {
@@ -469,7 +482,7 @@ func Between(x X, not bool, lo, hi X) X {
 	}
 	return X{Toks: cat(t, head, lt, kws("AND"), ht), Full: cat(f, head, lf, kws("AND"), hf),
 		N: &ast.BetweenExpression{Expr: x.N, Lower: lo.N, Upper: hi.N, Not: not}, P: PCmp, Ops: x.Ops + lo.Ops + hi.Ops + 1,
-		Feat: mergeFeat(fs, x.Feat, lo.Feat, hi.Feat), Names: mergeNames(x.Names, lo.Names, hi.Names)}
+		Feat: mergeFeat(fs, pf, x.Feat, lo.Feat, hi.Feat), Names: mergeNames(x.Names, lo.Names, hi.Names)}
 }
 
 // Exists builds [NOT] EXISTS (q).
@@ -484,19 +497,19 @@ func Exists(not bool, q S) X {
 		feat = "expr.not-exists"
 		p = PNot
 	}
-	return X{Toks: t, Full: t, N: n, P: p, Ops: 1, Feat: mergeFeat([]string{feat}, q.Feat), Names: q.Names}
+	return X{Toks: t, Full: t, N: n, P: p, Ops: 1, Feat: mergeFeat([]string{feat, "expr.subquery-body:" + q.Kind}, q.Feat), Names: q.Names}
 }
 
 // Subq builds a scalar sub-query (q).
 func Subq(q S) X {
 	t := paren(q.Toks)
 	return X{Toks: t, Full: t, N: &ast.SubqueryExpression{Subquery: q.N}, P: PPrimary,
-		Feat: mergeFeat([]string{"expr.scalar-subquery"}, q.Feat), Names: q.Names}
+		Feat: mergeFeat([]string{"expr.scalar-subquery", "expr.subquery-body:" + q.Kind}, q.Feat), Names: q.Names}
 }
 
 // Quant builds x op ANY|ALL (q).
 func Quant(x X, op, quant string, q S) X {
-	t, f := operandCmp(x)
+	t, f, pf := operandCmp(x)
 	tail := cat([]Tok{pt(op), kw(quant)}, paren(q.Toks))
 	var n ast.Expression
 	if quant == "ANY" {
@@ -505,7 +518,7 @@ func Quant(x X, op, quant string, q S) X {
 		n = &ast.AllExpression{Expr: x.N, Operator: op, Subquery: q.N}
 	}
 	return X{Toks: cat(t, tail), Full: cat(f, tail), N: n, P: PCmp, Ops: x.Ops + 1,
-		Feat: mergeFeat([]string{"expr.quantified:" + quant}, x.Feat, q.Feat), Names: mergeNames(x.Names, q.Names)}
+		Feat: mergeFeat([]string{"expr.quantified:" + quant, "expr.subquery-body:" + q.Kind}, pf, x.Feat, q.Feat), Names: mergeNames(x.Names, q.Names)}
 }
 
 // OrderItem is one ORDER BY element.
@@ -709,6 +722,9 @@ func Func(name string, args []X, o FuncOpts) X {
 				feat = append(feat, "expr.call.over.frame.offset")
 				fs = append(fs, o.Over.Start.Value.Feat)
 			}
+			if o.Over.End == nil {
+				feat = append(feat, "expr.call.over.frame.single-bound")
+			}
 			if o.Over.End != nil {
 				e := boundAST(*o.Over.End)
 				fr.End = &e
@@ -823,8 +839,10 @@ func typeToks(typ string) []Tok {
 // CastOp builds x::type.
 func CastOp(x X, typ string) X {
 	t := x.Toks
+	var pf []string
 	if x.P < PPostfix {
 		t = paren(t)
+		pf = []string{"expr.parens-required"}
 	}
 	f := x.Full
 	if x.Ops > 0 {
@@ -833,7 +851,7 @@ func CastOp(x X, typ string) X {
 	tt := typeToks(typ)
 	return X{Toks: cat(t, []Tok{pt("::")}, tt), Full: cat(f, []Tok{pt("::")}, tt),
 		N: &ast.CastExpression{Expr: x.N, Type: typ}, P: PPostfix, Ops: x.Ops + 1, CastTail: true,
-		Feat: mergeFeat([]string{"expr.cast-op"}, x.Feat), Names: x.Names}
+		Feat: mergeFeat([]string{"expr.cast-op"}, pf, x.Feat), Names: x.Names}
 }
 
 // Interval builds INTERVAL 'v'.
@@ -854,8 +872,10 @@ func Array(els []X) X {
 // Subscript builds x[i].
 func Subscript(x X, idx X) X {
 	t := x.Toks
+	var pf []string
 	if x.P < PPostfix || x.CastTail {
 		t = paren(t)
+		pf = []string{"expr.parens-required"}
 	}
 	f := x.Full
 	if x.Ops > 0 {
@@ -865,14 +885,16 @@ func Subscript(x X, idx X) X {
 	var n ast.Expression = &ast.ArraySubscriptExpression{Array: x.N, Indices: []ast.Expression{idx.N}}
 	return X{Toks: cat(t, []Tok{{S: "[", Call: true}}, idx.Toks, []Tok{pt("]")}), Full: cat(f, []Tok{{S: "[", Call: true}}, idx.Full, []Tok{pt("]")}),
 		N: n, P: PPostfix, Ops: x.Ops + idx.Ops + 1,
-		Feat: mergeFeat([]string{"expr.subscript"}, x.Feat, idx.Feat), Names: mergeNames(x.Names, idx.Names)}
+		Feat: mergeFeat([]string{"expr.subscript"}, pf, x.Feat, idx.Feat), Names: mergeNames(x.Names, idx.Names)}
 }
 
 // Slice builds x[lo:hi].
 func Slice(x X, lo, hi *X) X {
 	t := x.Toks
+	var pf []string
 	if x.P < PPostfix || x.CastTail {
 		t = paren(t)
+		pf = []string{"expr.parens-required"}
 	}
 	f := x.Full
 	if x.Ops > 0 {
@@ -880,7 +902,7 @@ func Slice(x X, lo, hi *X) X {
 	}
 	n := &ast.ArraySliceExpression{Array: x.N}
 	var mt, mf []Tok
-	fs := [][]string{{"expr.slice"}, x.Feat}
+	fs := [][]string{{"expr.slice"}, pf, x.Feat}
 	names := x.Names
 	ops := x.Ops + 1
 	if lo != nil {
